@@ -30,19 +30,32 @@ type Case struct {
 	// WrongPw send the password of their neighbour and are turned away - alone and in company alike)
 	Auth    bool  `json:"auth,omitempty"`
 	WrongPw []int `json:"wrong_pw,omitempty"`
+	// SharedUsers > 0: only that many distinct users; sessions i and i+SharedUsers share credentials
+	SharedUsers int `json:"shared_users,omitempty"`
 }
 
 func (c Case) password(i int) *string {
 	if !c.Auth {
 		return nil
 	}
-	p := fmt.Sprintf("pw:user%d", i)
+	p := fmt.Sprintf("pw:user%d", userOf(i))
 	for _, j := range c.WrongPw {
 		if j == i {
-			p = fmt.Sprintf("pw:user%d", i+1)
+			p = fmt.Sprintf("pw:user%d", userOf(i)+1)
 		}
 	}
 	return &p
+}
+
+// sharedUsers > 0: sessions i and i+sharedUsers log in as the same user (same credentials, different
+// application names): set per case by Run (cases run one at a time in a process).
+var sharedUsers int
+
+func userOf(i int) int {
+	if sharedUsers > 0 {
+		return i % sharedUsers
+	}
+	return i
 }
 
 func prelude(env *script.Env, kind string) {
@@ -111,8 +124,8 @@ type runner struct {
 // startupPairs: what session i announces (different users; every other session also an
 // application name and further run-time parameters, as psql / JDBC do)
 func startupPairs(i int) [][2]string {
-	p := [][2]string{{"user", fmt.Sprintf("user%d", i)}, {"database", "db"}}
-	if i%2 == 0 {
+	p := [][2]string{{"user", fmt.Sprintf("user%d", userOf(i))}, {"database", "db"}}
+	if i%2 == 0 || sharedUsers > 0 {
 		p = append(p, [2]string{"application_name", fmt.Sprintf("app-%d", i)}, [2]string{"client_encoding", "UTF8"}, [2]string{"options", fmt.Sprintf("-c search_path=s%d", i)})
 	}
 	return p
@@ -189,6 +202,10 @@ func Run(c Case) core.Result {
 	mark := core.RaceMark()
 
 	// concurrent run
+	sharedUsers = c.SharedUsers
+	if c.SharedUsers > 0 {
+		res.Labels = append(res.Labels, "several-sessions-per-user")
+	}
 	if c.Auth {
 		c.Cfg.Auth = &script.AuthSpec{PerUser: true, Pass: "pw"}
 		res.Labels = append(res.Labels, "password-logins")
